@@ -129,8 +129,11 @@ CHECKS["C11"] = dict(
          "with recovery disabled nothing changes. Correspondence: generated multi-plan stores (real crash images, ages maxAge +/- 200 ms / "
          "1 s / x10, six maxAge values, both option orders, in-memory and file-backed sqlite) opened by the real coercion.New in child "
          "processes; full post-state, plugin calls and vault writes compared with the model and the property monitor (vm_compute).",
-    note="the clock is not injectable: the exact boundary is proved in the model and sampled >= 200 ms away in the implementation; store "
-         "errors during recovery are not modelled; what a resumed plan then does is C09/C10",
+    note="the clock is not injectable: the exact boundary is proved in the model and sampled >= 200 ms away in the implementation; a "
+         "failing recovery is modelled by an operation budget (execute_new: nil error => the full selection, error => nothing resumed, "
+         "c11_new_error_or_complete_recovery); an interrupted close followed by any later start-up equals the close "
+         "(c11_interrupted_close_then_restart_closes); known finding R9 (torn first UpdatePlan on cosmosdb) is witnessed on every run; what "
+         "a resumed plan then does is C09/C10",
     technique="Coq proof (persist-by-key write semantics, specification by direct tree recursion) + differential correspondence with property monitor",
     design="DESIGN.md section 6 C11, section 13")
 
